@@ -91,6 +91,9 @@ func (c *Ctx) Digest(name string, b []byte) {
 	c.mu.Unlock()
 }
 
+// Heavy tells the watchdog that this case runs many goroutines at full speed.
+func (c *Ctx) Heavy() { heavyCase.Store(1) }
+
 // Trivial marks the case as not counting towards distinct_nontrivial.
 func (c *Ctx) Trivial() { c.trivial = true }
 
